@@ -19,20 +19,20 @@ import (
 
 // Config bounds one harness run.
 type Config struct {
-	Workers       int
-	Solver        SolverSpec
-	SolverTimeout int   // ms per query
-	MaxSteps      int64 // instruction budget per path
-	MaxPaths      int64 // stop after this many finished paths (0 = unlimited)
-	MaxConcretize int   // fan-out bound for concretisation
-	MaxViolations int   // stop collecting after this many violating paths
-	SamplePaths   int   // finished ok-paths to keep with model + observations
-	KeepPC        bool
-	Deadline      time.Time
-	Trace         bool
-	SolverLog     string // file to write the SMT transcript of worker 0 to
-	InitWhitelist []string
-	RepoPrefix    string
+	Workers         int
+	Solver          SolverSpec
+	SolverTimeout   int   // ms per query
+	MaxSteps        int64 // instruction budget per path
+	MaxPaths        int64 // stop after this many finished paths (0 = unlimited)
+	MaxConcretize   int   // fan-out bound for concretisation
+	MaxViolations   int   // stop collecting after this many violating paths
+	SamplePaths     int   // finished ok-paths to keep with model + observations
+	KeepPC          bool
+	Deadline        time.Time
+	Trace           bool
+	SolverLog       string // file to write the SMT transcript of worker 0 to
+	InitWhitelist   []string
+	RepoPrefix      string
 	NoFastPath      bool // disable the byte-domain fast path (every decision goes to the solver)
 	CrossCheckEvery int  // cross-check every n-th fast-path verdict with the solver (0 = never)
 }
@@ -53,33 +53,33 @@ type PathRecord struct {
 
 // Result summarises the exploration of one harness.
 type Result struct {
-	Harness       string            `json:"harness"`
-	Paths         int64             `json:"paths"`
-	OkPaths       int64             `json:"ok_paths"`
-	Infeasible    int64             `json:"infeasible_paths"`
-	Violations    []PathRecord      `json:"violations"`
-	ViolatingPaths int64            `json:"violating_paths"`
-	Inconclusive  []PathRecord      `json:"inconclusive"`
-	Samples       []PathRecord      `json:"samples"`
-	Reached       map[string]int64  `json:"reached"`
-	Queries       int               `json:"queries"`
-	Sat           int               `json:"sat"`
-	Unsat         int               `json:"unsat"`
-	Unknown       int               `json:"unknown"`
-	SolverErrors  []string          `json:"solver_errors,omitempty"`
-	SolverSeconds float64           `json:"solver_s"`
-	AssertsHeld   int64             `json:"asserts_held"` // vAssert evaluations on completed paths
-	Obligations   int64             `json:"obligations"`
-	Discharged    int64             `json:"discharged"`
-	Decisions     int64             `json:"decisions"`
-	FastPath      int64             `json:"fast_path_decisions"` // settled by the byte-domain fast path
-	Steps         int64             `json:"steps"`
-	WallSeconds   float64           `json:"wall_s"`
-	Exhaustive    bool              `json:"exhaustive"`
-	StopReason    string            `json:"stop_reason,omitempty"`
-	Functions     map[string]string `json:"functions"` // SSA functions executed → class (repo/std/model)
-	Models        []string          `json:"models"`    // models/stubs hit
-	MaxTrail      int               `json:"max_trail"`
+	Harness        string            `json:"harness"`
+	Paths          int64             `json:"paths"`
+	OkPaths        int64             `json:"ok_paths"`
+	Infeasible     int64             `json:"infeasible_paths"`
+	Violations     []PathRecord      `json:"violations"`
+	ViolatingPaths int64             `json:"violating_paths"`
+	Inconclusive   []PathRecord      `json:"inconclusive"`
+	Samples        []PathRecord      `json:"samples"`
+	Reached        map[string]int64  `json:"reached"`
+	Queries        int               `json:"queries"`
+	Sat            int               `json:"sat"`
+	Unsat          int               `json:"unsat"`
+	Unknown        int               `json:"unknown"`
+	SolverErrors   []string          `json:"solver_errors,omitempty"`
+	SolverSeconds  float64           `json:"solver_s"`
+	AssertsHeld    int64             `json:"asserts_held"` // vAssert evaluations on completed paths
+	Obligations    int64             `json:"obligations"`
+	Discharged     int64             `json:"discharged"`
+	Decisions      int64             `json:"decisions"`
+	FastPath       int64             `json:"fast_path_decisions"` // settled by the byte-domain fast path
+	Steps          int64             `json:"steps"`
+	WallSeconds    float64           `json:"wall_s"`
+	Exhaustive     bool              `json:"exhaustive"`
+	StopReason     string            `json:"stop_reason,omitempty"`
+	Functions      map[string]string `json:"functions"` // SSA functions executed → class (repo/std/model)
+	Models         []string          `json:"models"`    // models/stubs hit
+	MaxTrail       int               `json:"max_trail"`
 }
 
 // Engine explores one harness function.
@@ -104,14 +104,15 @@ type Engine struct {
 	errorMethods   methodSet
 	reflectPackage *ssa.Package
 
-	res       Result
-	violKeys  map[string]int
-	funcs     map[string]string
-	models    map[string]bool
-	oblN      int64
-	oblOK     int64
-	decisions int64
-	steps     int64
+	res        Result
+	violKeys   map[string]int
+	sampleKeys map[string]int
+	funcs      map[string]string
+	models     map[string]bool
+	oblN       int64
+	oblOK      int64
+	decisions  int64
+	steps      int64
 }
 
 func (e *Engine) stopped() bool { return atomic.LoadInt32(&e.stopFlag) != 0 }
@@ -307,7 +308,17 @@ func (e *Engine) finish(rec PathRecord, ps *pathState) {
 	switch rec.Outcome {
 	case "ok":
 		e.res.OkPaths++
-		if len(e.res.Samples) < e.cfg.SamplePaths {
+		// stratified sampling: a few paths per distinct set of reached labels
+		key := strings.Join(ps.reach, ",")
+		if e.sampleKeys == nil {
+			e.sampleKeys = map[string]int{}
+		}
+		perKey := e.cfg.SamplePaths / 3
+		if perKey < 2 {
+			perKey = 2
+		}
+		if len(e.res.Samples) < e.cfg.SamplePaths && e.sampleKeys[key] < perKey {
+			e.sampleKeys[key]++
 			e.res.Samples = append(e.res.Samples, rec)
 		}
 	case "infeasible":
